@@ -2,6 +2,7 @@
 lock correctly on every path: write-phase pairing, container transfer/drain, callee preconditions,
 stores under the write phase, root-lock release kind, lease validation (DESIGN.md section C25)."""
 import os, re
+from props import comparators
 from engine import facts, pathflow, lockflow, mutate
 from engine.facts import kids, walk, strip, is_call, call_args, call_obj, expr_key
 from engine.report import Report
@@ -235,6 +236,13 @@ MUTANTS_BTREE = [
 ]
 
 
+CMP_MUTANTS = [
+    ('comparator-by-subtraction', 'src/include/souffle/datastructure/BTreeUtil.h', '        return (a > b) - (a < b);', '        return a - b;', 'R6'),
+    ('interpreter-comparator-equal-ignores-tail', 'src/interpreter/Util.h',
+     '        return a[First] == b[First] && comparator<Rest...>().equal(a, b);', '        return a[First] == b[First];', 'R6'),
+]
+
+
 def run_for(pid, classes, header, explanation, floors, mutants, sibling=None, tier='quick', extra=None):
     rep = Report(pid, tier)
     rep.explanation = explanation
@@ -250,6 +258,10 @@ def run_for(pid, classes, header, explanation, floors, mutants, sibling=None, ti
         c = analyse_unit(r, u, classes)
         if sibling:
             siblings_rule(r, u, *sibling)
+        # the element order itself: decided over the finite set of orderings (props/comparators.py)
+        uc, = facts.extract([comparators.JOB])
+        r.add_units([uc])
+        r.floor('R6-comparator-classes', comparators.rule_comparators(r, uc, r'detail::comparator|index_utils::comparator', 'R6-comparator-order'), 5)
         return c
 
     try:
@@ -260,6 +272,7 @@ def run_for(pid, classes, header, explanation, floors, mutants, sibling=None, ti
         if extra:
             extra(rep)
         ms = [mutate.Mutant(n, header, o, w, e) for (n, o, w, e) in mutants]
+        ms[2:2] = [mutate.Mutant(*m) for m in CMP_MUTANTS]
         if tier != 'thorough':
             ms = ms[:2]
         mutate.run_mutants(rep, pid, ms, analyse)
